@@ -178,3 +178,51 @@ Extract/DispPlss.vos Extract/DispPlss.vok Extract/DispPlss.required_vos: Extract
 Extract/Drv_plss.vo Extract/Drv_plss.glob Extract/Drv_plss.v.beautified Extract/Drv_plss.required_vo: Extract/Drv_plss.v Engine/Regex.vo Extract/Val.vo Extract/DispBase.vo Extract/DispPlss.vo
 Extract/Drv_plss.vio: Extract/Drv_plss.v Engine/Regex.vio Extract/Val.vio Extract/DispBase.vio Extract/DispPlss.vio
 Extract/Drv_plss.vos Extract/Drv_plss.vok Extract/Drv_plss.required_vos: Extract/Drv_plss.v Engine/Regex.vos Extract/Val.vos Extract/DispBase.vos Extract/DispPlss.vos
+Properties/C01.vo Properties/C01.glob Properties/C01.v.beautified Properties/C01.required_vo: Properties/C01.v Engine/Regex.vo Gen/Patterns.vo PyRt/Str.vo Gen/Tables.vo Model/Trs.vo Model/PlssPre.vo Model/PlssParse.vo Model/Config.vo Model/PlssDesc.vo
+Properties/C01.vio: Properties/C01.v Engine/Regex.vio Gen/Patterns.vio PyRt/Str.vio Gen/Tables.vio Model/Trs.vio Model/PlssPre.vio Model/PlssParse.vio Model/Config.vio Model/PlssDesc.vio
+Properties/C01.vos Properties/C01.vok Properties/C01.required_vos: Properties/C01.v Engine/Regex.vos Gen/Patterns.vos PyRt/Str.vos Gen/Tables.vos Model/Trs.vos Model/PlssPre.vos Model/PlssParse.vos Model/Config.vos Model/PlssDesc.vos
+Proofs/C11/CopyAll.vo Proofs/C11/CopyAll.glob Proofs/C11/CopyAll.v.beautified Proofs/C11/CopyAll.required_vo: Proofs/C11/CopyAll.v Engine/Regex.vo Gen/Patterns.vo PyRt/Str.vo Gen/Tables.vo Model/Trs.vo Model/Unpack.vo Model/TractPre.vo Model/Aliquot.vo Model/TractParse.vo Model/PlssPre.vo Model/PlssParse.vo Proofs/C18/Lists.vo
+Proofs/C11/CopyAll.vio: Proofs/C11/CopyAll.v Engine/Regex.vio Gen/Patterns.vio PyRt/Str.vio Gen/Tables.vio Model/Trs.vio Model/Unpack.vio Model/TractPre.vio Model/Aliquot.vio Model/TractParse.vio Model/PlssPre.vio Model/PlssParse.vio Proofs/C18/Lists.vio
+Proofs/C11/CopyAll.vos Proofs/C11/CopyAll.vok Proofs/C11/CopyAll.required_vos: Proofs/C11/CopyAll.v Engine/Regex.vos Gen/Patterns.vos PyRt/Str.vos Gen/Tables.vos Model/Trs.vos Model/Unpack.vos Model/TractPre.vos Model/Aliquot.vos Model/TractParse.vos Model/PlssPre.vos Model/PlssParse.vos Proofs/C18/Lists.vos
+Properties/C11.vo Properties/C11.glob Properties/C11.v.beautified Properties/C11.required_vo: Properties/C11.v Engine/Regex.vo Gen/Patterns.vo PyRt/Str.vo Gen/Tables.vo Model/Trs.vo Model/Unpack.vo Model/TractParse.vo Model/PlssPre.vo Model/PlssParse.vo Model/Config.vo Model/PlssDesc.vo Proofs/C11/CopyAll.vo Proofs/C13/Config.vo
+Properties/C11.vio: Properties/C11.v Engine/Regex.vio Gen/Patterns.vio PyRt/Str.vio Gen/Tables.vio Model/Trs.vio Model/Unpack.vio Model/TractParse.vio Model/PlssPre.vio Model/PlssParse.vio Model/Config.vio Model/PlssDesc.vio Proofs/C11/CopyAll.vio Proofs/C13/Config.vio
+Properties/C11.vos Properties/C11.vok Properties/C11.required_vos: Properties/C11.v Engine/Regex.vos Gen/Patterns.vos PyRt/Str.vos Gen/Tables.vos Model/Trs.vos Model/Unpack.vos Model/TractParse.vos Model/PlssPre.vos Model/PlssParse.vos Model/Config.vos Model/PlssDesc.vos Proofs/C11/CopyAll.vos Proofs/C13/Config.vos
+Proofs/C09/Tracts.vo Proofs/C09/Tracts.glob Proofs/C09/Tracts.v.beautified Proofs/C09/Tracts.required_vo: Proofs/C09/Tracts.v Engine/Regex.vo Gen/Patterns.vo PyRt/Str.vo Gen/Tables.vo Model/Trs.vo Model/Unpack.vo Model/TractPre.vo Model/Aliquot.vo Model/TractParse.vo Model/PlssPre.vo Model/PlssParse.vo
+Proofs/C09/Tracts.vio: Proofs/C09/Tracts.v Engine/Regex.vio Gen/Patterns.vio PyRt/Str.vio Gen/Tables.vio Model/Trs.vio Model/Unpack.vio Model/TractPre.vio Model/Aliquot.vio Model/TractParse.vio Model/PlssPre.vio Model/PlssParse.vio
+Proofs/C09/Tracts.vos Proofs/C09/Tracts.vok Proofs/C09/Tracts.required_vos: Proofs/C09/Tracts.v Engine/Regex.vos Gen/Patterns.vos PyRt/Str.vos Gen/Tables.vos Model/Trs.vos Model/Unpack.vos Model/TractPre.vos Model/Aliquot.vos Model/TractParse.vos Model/PlssPre.vos Model/PlssParse.vos
+Proofs/C20/Modes.vo Proofs/C20/Modes.glob Proofs/C20/Modes.v.beautified Proofs/C20/Modes.required_vo: Proofs/C20/Modes.v Engine/Regex.vo Gen/Patterns.vo PyRt/Str.vo Gen/Tables.vo Model/Trs.vo Model/Unpack.vo Model/TractPre.vo Model/Aliquot.vo Model/TractParse.vo Model/PlssPre.vo Model/PlssParse.vo Proofs/C18/Lists.vo
+Proofs/C20/Modes.vio: Proofs/C20/Modes.v Engine/Regex.vio Gen/Patterns.vio PyRt/Str.vio Gen/Tables.vio Model/Trs.vio Model/Unpack.vio Model/TractPre.vio Model/Aliquot.vio Model/TractParse.vio Model/PlssPre.vio Model/PlssParse.vio Proofs/C18/Lists.vio
+Proofs/C20/Modes.vos Proofs/C20/Modes.vok Proofs/C20/Modes.required_vos: Proofs/C20/Modes.v Engine/Regex.vos Gen/Patterns.vos PyRt/Str.vos Gen/Tables.vos Model/Trs.vos Model/Unpack.vos Model/TractPre.vos Model/Aliquot.vos Model/TractParse.vos Model/PlssPre.vos Model/PlssParse.vos Proofs/C18/Lists.vos
+Proofs/C10/Paired.vo Proofs/C10/Paired.glob Proofs/C10/Paired.v.beautified Proofs/C10/Paired.required_vo: Proofs/C10/Paired.v Engine/Regex.vo Gen/Patterns.vo PyRt/Str.vo Gen/Tables.vo Model/Trs.vo Model/Unpack.vo Model/TractPre.vo Model/Aliquot.vo Model/TractParse.vo Model/PlssPre.vo Model/PlssParse.vo
+Proofs/C10/Paired.vio: Proofs/C10/Paired.v Engine/Regex.vio Gen/Patterns.vio PyRt/Str.vio Gen/Tables.vio Model/Trs.vio Model/Unpack.vio Model/TractPre.vio Model/Aliquot.vio Model/TractParse.vio Model/PlssPre.vio Model/PlssParse.vio
+Proofs/C10/Paired.vos Proofs/C10/Paired.vok Proofs/C10/Paired.required_vos: Proofs/C10/Paired.v Engine/Regex.vos Gen/Patterns.vos PyRt/Str.vos Gen/Tables.vos Model/Trs.vos Model/Unpack.vos Model/TractPre.vos Model/Aliquot.vos Model/TractParse.vos Model/PlssPre.vos Model/PlssParse.vos
+Proofs/C04/Walk.vo Proofs/C04/Walk.glob Proofs/C04/Walk.v.beautified Proofs/C04/Walk.required_vo: Proofs/C04/Walk.v Engine/Regex.vo Gen/Patterns.vo PyRt/Str.vo Gen/Tables.vo Model/Trs.vo Model/Unpack.vo Model/TractPre.vo Model/Aliquot.vo Model/TractParse.vo Model/PlssPre.vo Model/PlssParse.vo Proofs/C18/Lists.vo Proofs/C11/CopyAll.vo
+Proofs/C04/Walk.vio: Proofs/C04/Walk.v Engine/Regex.vio Gen/Patterns.vio PyRt/Str.vio Gen/Tables.vio Model/Trs.vio Model/Unpack.vio Model/TractPre.vio Model/Aliquot.vio Model/TractParse.vio Model/PlssPre.vio Model/PlssParse.vio Proofs/C18/Lists.vio Proofs/C11/CopyAll.vio
+Proofs/C04/Walk.vos Proofs/C04/Walk.vok Proofs/C04/Walk.required_vos: Proofs/C04/Walk.v Engine/Regex.vos Gen/Patterns.vos PyRt/Str.vos Gen/Tables.vos Model/Trs.vos Model/Unpack.vos Model/TractPre.vos Model/Aliquot.vos Model/TractParse.vos Model/PlssPre.vos Model/PlssParse.vos Proofs/C18/Lists.vos Proofs/C11/CopyAll.vos
+Properties/C04.vo Properties/C04.glob Properties/C04.v.beautified Properties/C04.required_vo: Properties/C04.v Engine/Regex.vo Gen/Patterns.vo PyRt/Str.vo Gen/Tables.vo Model/Trs.vo Model/Unpack.vo Model/TractParse.vo Model/PlssPre.vo Model/PlssParse.vo Model/Config.vo Model/PlssDesc.vo Proofs/C04/Walk.vo
+Properties/C04.vio: Properties/C04.v Engine/Regex.vio Gen/Patterns.vio PyRt/Str.vio Gen/Tables.vio Model/Trs.vio Model/Unpack.vio Model/TractParse.vio Model/PlssPre.vio Model/PlssParse.vio Model/Config.vio Model/PlssDesc.vio Proofs/C04/Walk.vio
+Properties/C04.vos Properties/C04.vok Properties/C04.required_vos: Properties/C04.v Engine/Regex.vos Gen/Patterns.vos PyRt/Str.vos Gen/Tables.vos Model/Trs.vos Model/Unpack.vos Model/TractParse.vos Model/PlssPre.vos Model/PlssParse.vos Model/Config.vos Model/PlssDesc.vos Proofs/C04/Walk.vos
+Properties/C09.vo Properties/C09.glob Properties/C09.v.beautified Properties/C09.required_vo: Properties/C09.v Engine/Regex.vo Gen/Patterns.vo PyRt/Str.vo Gen/Tables.vo Model/Trs.vo Model/Unpack.vo Model/TractParse.vo Model/PlssPre.vo Model/PlssParse.vo Model/Config.vo Model/PlssDesc.vo Proofs/C09/Tracts.vo
+Properties/C09.vio: Properties/C09.v Engine/Regex.vio Gen/Patterns.vio PyRt/Str.vio Gen/Tables.vio Model/Trs.vio Model/Unpack.vio Model/TractParse.vio Model/PlssPre.vio Model/PlssParse.vio Model/Config.vio Model/PlssDesc.vio Proofs/C09/Tracts.vio
+Properties/C09.vos Properties/C09.vok Properties/C09.required_vos: Properties/C09.v Engine/Regex.vos Gen/Patterns.vos PyRt/Str.vos Gen/Tables.vos Model/Trs.vos Model/Unpack.vos Model/TractParse.vos Model/PlssPre.vos Model/PlssParse.vos Model/Config.vos Model/PlssDesc.vos Proofs/C09/Tracts.vos
+Properties/C10.vo Properties/C10.glob Properties/C10.v.beautified Properties/C10.required_vo: Properties/C10.v Engine/Regex.vo Gen/Patterns.vo PyRt/Str.vo Gen/Tables.vo Model/Trs.vo Model/Unpack.vo Model/TractParse.vo Model/PlssPre.vo Model/PlssParse.vo Model/Config.vo Model/PlssDesc.vo Proofs/C10/Paired.vo Proofs/C09/Tracts.vo
+Properties/C10.vio: Properties/C10.v Engine/Regex.vio Gen/Patterns.vio PyRt/Str.vio Gen/Tables.vio Model/Trs.vio Model/Unpack.vio Model/TractParse.vio Model/PlssPre.vio Model/PlssParse.vio Model/Config.vio Model/PlssDesc.vio Proofs/C10/Paired.vio Proofs/C09/Tracts.vio
+Properties/C10.vos Properties/C10.vok Properties/C10.required_vos: Properties/C10.v Engine/Regex.vos Gen/Patterns.vos PyRt/Str.vos Gen/Tables.vos Model/Trs.vos Model/Unpack.vos Model/TractParse.vos Model/PlssPre.vos Model/PlssParse.vos Model/Config.vos Model/PlssDesc.vos Proofs/C10/Paired.vos Proofs/C09/Tracts.vos
+Properties/C20.vo Properties/C20.glob Properties/C20.v.beautified Properties/C20.required_vo: Properties/C20.v Engine/Regex.vo Gen/Patterns.vo PyRt/Str.vo Gen/Tables.vo Model/Trs.vo Model/Unpack.vo Model/TractParse.vo Model/PlssPre.vo Model/PlssParse.vo Model/Config.vo Model/PlssDesc.vo Proofs/C20/Modes.vo
+Properties/C20.vio: Properties/C20.v Engine/Regex.vio Gen/Patterns.vio PyRt/Str.vio Gen/Tables.vio Model/Trs.vio Model/Unpack.vio Model/TractParse.vio Model/PlssPre.vio Model/PlssParse.vio Model/Config.vio Model/PlssDesc.vio Proofs/C20/Modes.vio
+Properties/C20.vos Properties/C20.vok Properties/C20.required_vos: Properties/C20.v Engine/Regex.vos Gen/Patterns.vos PyRt/Str.vos Gen/Tables.vos Model/Trs.vos Model/Unpack.vos Model/TractParse.vos Model/PlssPre.vos Model/PlssParse.vos Model/Config.vos Model/PlssDesc.vos Proofs/C20/Modes.vos
+Proofs/C03/Total.vo Proofs/C03/Total.glob Proofs/C03/Total.v.beautified Proofs/C03/Total.required_vo: Proofs/C03/Total.v Engine/Regex.vo Gen/Patterns.vo PyRt/Str.vo Gen/Tables.vo Model/Trs.vo Model/Unpack.vo Model/TractPre.vo Model/Aliquot.vo Model/TractParse.vo Model/PlssPre.vo Model/PlssParse.vo Proofs/C11/CopyAll.vo Proofs/C20/Modes.vo
+Proofs/C03/Total.vio: Proofs/C03/Total.v Engine/Regex.vio Gen/Patterns.vio PyRt/Str.vio Gen/Tables.vio Model/Trs.vio Model/Unpack.vio Model/TractPre.vio Model/Aliquot.vio Model/TractParse.vio Model/PlssPre.vio Model/PlssParse.vio Proofs/C11/CopyAll.vio Proofs/C20/Modes.vio
+Proofs/C03/Total.vos Proofs/C03/Total.vok Proofs/C03/Total.required_vos: Proofs/C03/Total.v Engine/Regex.vos Gen/Patterns.vos PyRt/Str.vos Gen/Tables.vos Model/Trs.vos Model/Unpack.vos Model/TractPre.vos Model/Aliquot.vos Model/TractParse.vos Model/PlssPre.vos Model/PlssParse.vos Proofs/C11/CopyAll.vos Proofs/C20/Modes.vos
+Spec/C08Spec.vo Spec/C08Spec.glob Spec/C08Spec.v.beautified Spec/C08Spec.required_vo: Spec/C08Spec.v Engine/Regex.vo PyRt/Str.vo
+Spec/C08Spec.vio: Spec/C08Spec.v Engine/Regex.vio PyRt/Str.vio
+Spec/C08Spec.vos Spec/C08Spec.vok Spec/C08Spec.required_vos: Spec/C08Spec.v Engine/Regex.vos PyRt/Str.vos
+Proofs/C08/Sweeps.vo Proofs/C08/Sweeps.glob Proofs/C08/Sweeps.v.beautified Proofs/C08/Sweeps.required_vo: Proofs/C08/Sweeps.v Engine/Regex.vo Gen/Patterns.vo PyRt/Str.vo Gen/Tables.vo Model/Trs.vo Model/Unpack.vo Model/TractPre.vo Model/PlssPre.vo Spec/C08Spec.vo
+Proofs/C08/Sweeps.vio: Proofs/C08/Sweeps.v Engine/Regex.vio Gen/Patterns.vio PyRt/Str.vio Gen/Tables.vio Model/Trs.vio Model/Unpack.vio Model/TractPre.vio Model/PlssPre.vio Spec/C08Spec.vio
+Proofs/C08/Sweeps.vos Proofs/C08/Sweeps.vok Proofs/C08/Sweeps.required_vos: Proofs/C08/Sweeps.v Engine/Regex.vos Gen/Patterns.vos PyRt/Str.vos Gen/Tables.vos Model/Trs.vos Model/Unpack.vos Model/TractPre.vos Model/PlssPre.vos Spec/C08Spec.vos
+Properties/C03.vo Properties/C03.glob Properties/C03.v.beautified Properties/C03.required_vo: Properties/C03.v Engine/Regex.vo Gen/Patterns.vo PyRt/Str.vo Gen/Tables.vo Model/Trs.vo Model/Unpack.vo Model/TractParse.vo Model/PlssPre.vo Model/PlssParse.vo Model/Config.vo Model/PlssDesc.vo Proofs/C03/Total.vo Proofs/C11/CopyAll.vo
+Properties/C03.vio: Properties/C03.v Engine/Regex.vio Gen/Patterns.vio PyRt/Str.vio Gen/Tables.vio Model/Trs.vio Model/Unpack.vio Model/TractParse.vio Model/PlssPre.vio Model/PlssParse.vio Model/Config.vio Model/PlssDesc.vio Proofs/C03/Total.vio Proofs/C11/CopyAll.vio
+Properties/C03.vos Properties/C03.vok Properties/C03.required_vos: Properties/C03.v Engine/Regex.vos Gen/Patterns.vos PyRt/Str.vos Gen/Tables.vos Model/Trs.vos Model/Unpack.vos Model/TractParse.vos Model/PlssPre.vos Model/PlssParse.vos Model/Config.vos Model/PlssDesc.vos Proofs/C03/Total.vos Proofs/C11/CopyAll.vos
+Properties/C08.vo Properties/C08.glob Properties/C08.v.beautified Properties/C08.required_vo: Properties/C08.v Engine/Regex.vo Gen/Patterns.vo PyRt/Str.vo Gen/Tables.vo Model/Trs.vo Model/Unpack.vo Model/PlssPre.vo Spec/C08Spec.vo Proofs/C08/Sweeps.vo
+Properties/C08.vio: Properties/C08.v Engine/Regex.vio Gen/Patterns.vio PyRt/Str.vio Gen/Tables.vio Model/Trs.vio Model/Unpack.vio Model/PlssPre.vio Spec/C08Spec.vio Proofs/C08/Sweeps.vio
+Properties/C08.vos Properties/C08.vok Properties/C08.required_vos: Properties/C08.v Engine/Regex.vos Gen/Patterns.vos PyRt/Str.vos Gen/Tables.vos Model/Trs.vos Model/Unpack.vos Model/PlssPre.vos Spec/C08Spec.vos Proofs/C08/Sweeps.vos
